@@ -96,3 +96,40 @@ def set_existing_field(cls, fieldname, vlevel, connected, set_reference, value_i
     if u:
         return "UNIQ broken: %s" % (u[0],)
     return True
+
+
+def add_line_unknown_version(rt, vlevel, VN, header_has_VN, segment_version):
+    """replay of a counter-model of Creators.__add_line_unknown_version on a real Gfa"""
+    texts = {"#": "# c", "H": "H\tVN:Z:%s" % VN if header_has_VN else "H\txx:i:1",
+             "S": "S\tA\t*" if segment_version == "gfa1" else "S\tA\t8\t*", "E": "E\t*\tA+\tA-\t0\t2\t0\t2\t*", "F": "F\tA\tx+\t0\t2\t0\t2\t*",
+             "G": "G\tg1\tA+\tB-\t10\t*", "U": "U\tu\tA", "O": "O\to\tA+", "L": "L\tA\t+\tA\t-\t*", "C": "C\tA\t+\tB\t+\t0\t*", "P": "P\tp\tA+\t*", "X": "X\tq"}
+    want_version = {"H": ({"1.0": "gfa1", "2.0": "gfa2"}.get(VN) if header_has_VN else None), "S": segment_version}
+    for k in "EFGUO":
+        want_version[k] = "gfa2"
+    # (a) level and dialect reach the line
+    g = gfapy.Gfa(vlevel=vlevel)
+    try:
+        g.add_line(texts[rt])
+    except gfapy.VersionError:
+        if not (rt == "H" and header_has_VN and VN not in ("1.0", "2.0") and vlevel > 0):
+            return "VersionError for %r" % texts[rt]
+        return True
+    if rt in want_version and g.version != want_version[rt] and not (rt == "H" and header_has_VN and VN not in ("1.0", "2.0")):
+        return "version %r after %r, expected %r" % (g.version, texts[rt], want_version[rt])
+    for l in g.lines:
+        if l.record_type == rt and rt not in ("#", "H") and not l.virtual and l.vlevel != vlevel:
+            return "line %r has vlevel %d in a Gfa of vlevel %d" % (str(l), l.vlevel, vlevel)
+    # (b) queued lines are processed under the decided version
+    if rt == "S" or rt in "EFGUO":
+        g = gfapy.Gfa(vlevel=vlevel)
+        g.add_line("X\tq")                      # a custom record: legal in GFA2 only
+        try:
+            g.add_line(texts[rt])
+            ok = True
+        except gfapy.Error:
+            ok = False
+        if want_version[rt] == "gfa1" and ok:
+            return "a queued custom record was accepted into a GFA1 graph (queue processed before the version was set)"
+        if want_version[rt] == "gfa2" and not ok:
+            return "a queued custom record was refused although the version is gfa2"
+    return True
